@@ -23,10 +23,12 @@ pub fn families(prop: &str) -> Families {
         tame: false,
         no_collapse: false,
         seeded_critical: true,
+        comment_enum: false,
     };
     match prop {
         // C02's quantifier has sort_requires off
-        "C02" => Families { corpus_sort: false, ..base },
+        "C01" | "C03" => Families { comment_enum: true, ..base },
+        "C02" => Families { corpus_sort: false, comment_enum: true, ..base },
         "C06" => Families { corpus_ranges: false, corpus_sort: false, tame: true, no_collapse: true, mutants: false, seeded_critical: false, seeded_min_width: 120, seeded_scale: 3, ..base },
         "C10" => Families { corpus_ranges: false, ..base },
         _ => base,
@@ -44,6 +46,9 @@ fn signature(
     ev: &Eval,
     fails: &mut dyn FnMut(&str) -> Option<bool>,
 ) -> String {
+    if let Some(p) = &ev.presig {
+        return format!("cmt1:{}:{}:{}", oracle, p, wclass(&ev.cfg));
+    }
     if ev.range.is_some() {
         let r = ev.range.unwrap();
         return format!(
